@@ -107,6 +107,9 @@ def real_run(path, lang_opt=None, file_type=None):
         exc = f'{type(e).__name__}: {e}'[:200]
     finally:
         misc.utc_now = saved
+    for st_, n_, _x in calls:
+        if st_ is not None:
+            NAME_STAGE.setdefault(n_, st_)
     return {'lines': [canon_call(n, x) for _s, n, x in calls], 'stages': [s for s, _n, _x in calls], 'uncaught': 1 if exc else 0, 'exc': exc,
             'entries': info['entries'], 'snapshot': info['snapshot'], 'language': info['language']}
 
@@ -174,14 +177,20 @@ def compare(chk, name, cases, workdir):
     for rel, data, lang_opt, file_type in cases:
         path = os.path.join(workdir, rel)
         os.makedirs(os.path.dirname(path), exist_ok=True)
-        with open(path, 'wb') as f:
-            f.write(data)
+        missing = data is None
+        if missing:
+            data = b''
+            if os.path.exists(path):
+                os.unlink(path)
+        else:
+            with open(path, 'wb') as f:
+                f.write(data)
         real = real_run(path, lang_opt, file_type)
         if real.get('cli_error'):
             prepared.append({'case': (rel, data, lang_opt, file_type), 'real': real, 'skip': 'cli-rejects-language', 'args': None})
             continue
         try:
-            args, skip, lines = base_args(path, data, real, lang_opt, file_type)
+            args, skip, lines = base_args(path, data, real, lang_opt, file_type, stat=not missing)
         except BaseException as exc:
             if isinstance(exc, (KeyboardInterrupt, SystemExit)):
                 raise
@@ -227,6 +236,11 @@ def compare(chk, name, cases, workdir):
             st['disagreements'] += 1
     return prepared
 
+NAME_STAGE = {}          # tag name → the stage whose real calls carried it (learnt from the real runs of this process)
+
+def _stage_rank(stage):
+    return STAGES.index(stage) if stage in STAGES else (-1 if stage is None else len(STAGES))
+
 def first_difference(p):
     """→ dict(index, real, model, stage): the first differing line and the stage that made the real one (or the model's origin)"""
     want = p['real']['lines']
@@ -238,7 +252,12 @@ def first_difference(p):
         b = got[i] if i < len(got) else None
         if a != b:
             stage = p['real']['stages'][i] if i < len(want) else None
-            return {'index': i, 'real': a, 'model': b, 'stage_of_real_call': stage,
+            model_stage = NAME_STAGE.get(b.split('(')[0]) if b else None
+            cands = [x for x in (stage if a is not None else None, model_stage) if x is not None]
+            first = min(cands, key=_stage_rank) if cands else None
+            if a is not None and stage is None:
+                first = 'check (loader / file type)'
+            return {'index': i, 'real': a, 'model': b, 'stage_of_real_call': stage, 'stage_of_model_line': model_stage, 'first_differing_stage': first,
                     'previous_real_stage': p['real']['stages'][i - 1] if 0 < i <= len(want) else None}
     if tail != str(p['real']['uncaught']):
         return {'index': len(want), 'real': f"uncaught={p['real']['uncaught']} {p['real']['exc']}", 'model': 'uncaught=' + tail, 'stage_of_real_call': None}
@@ -290,10 +309,22 @@ def gen_cases(rng, n, sources=('meta', 'catalog', 'hostile')):
         base = rng.choice(PATHS)
         r = rng.random()
         file_type = None
-        if r < 0.12:
-            file_type = rng.choice(['po', 'pot', 'mo', 'gmo', 'txt'])
-            if rng.random() < 0.5:
+        if r < 0.2:
+            # --file-type: agreeing with the extension, overriding it inside the PO family (po <-> pot: only is_template changes),
+            # overriding it across families (a PO file read as MO and vice versa), or naming no known type
+            conflict = {'.po': 'pot', '.pot': 'po', '.mo': 'gmo', '.gmo': 'mo'}
+            q = rng.random()
+            if q < 0.45 and ext in conflict:
+                file_type = conflict[ext]
+            elif q < 0.6:
+                file_type = ext[1:] if ext[1:] in ('po', 'pot', 'mo', 'gmo') else 'po'
+            elif q < 0.8:
+                file_type = rng.choice(['po', 'pot', 'mo', 'gmo'])
                 ext = rng.choice(['.po', '.pot', '.mo', '.txt', ''])
+            else:
+                file_type = rng.choice(['txt', 'PO', 'po~', ''])
+        if rng.random() < 0.02:
+            data = None            # the path does not exist: os.stat fails
         out.append((f'w{k}/{base}{ext}', data, rng.choice(LANG_OPTS), file_type, src))
     return out
 
@@ -411,7 +442,7 @@ def stream(chk, work_root, rng, n, name='whole-files', sources=('meta', 'catalog
         d = first_difference(r)
         found.append({'kind': 'whole-file', 'path': r['case'][0].split('/', 1)[-1], 'options': {'language': c[2], 'file_type': c[3]}, 'source': c[4],
                       'file_hex': data.hex(), 'file_text': data.decode('latin1')[:2000], 'original_size': len(c[1]), 'shrunk_size': len(data),
-                      'first_difference': d, 'first_differing_stage': (d or {}).get('stage_of_real_call') or (d or {}).get('previous_real_stage'),
+                      'first_difference': d, 'first_differing_stage': (d or {}).get('first_differing_stage') or (d or {}).get('stage_of_real_call') or (d or {}).get('previous_real_stage'),
                       'real': show_real(r['real'])[:3000], 'model': (r.get('model') or '')[:3000],
                       'replay': 'write bytes.fromhex(file_hex) to <dir>/<path>; run lib.check.Checker(<that path>, options).check() with a capturing tag() '
                                 '(tools/checks/whole_common.real_run) and `whole check` of the Lean driver on the line whole_common.compare builds'})
